@@ -1883,3 +1883,15 @@ def m_sj_deserializer_end(ex, a, m):
     d = a[0].cell.v if isinstance(a[0], Ptr) else a[0]
     r = jsonmodel.Reader(ex, d.chars); r.i = d.i; r.skip_ws()
     return ok(UNIT) if r.eof() else err(Agg('struct', 'SerdeJsonError', None, [Cell(rstr('trailing characters'))]))
+
+# ------------------------------------------------------------------------------------------ panics reached through library calls
+@model_rx(r'^(core::panicking::\w+|std::rt::panic_fmt|std::rt::begin_panic|core::panicking::panic_fmt|std::panicking::begin_panic|core::option::unwrap_failed|core::option::expect_failed|core::result::unwrap_failed|core::slice::index::\w+_fail|core::str::slice_error_fail|core::panicking::panic_bounds_check|core::cell::panic_already_(?:mutably_)?borrowed|std::process::abort|std::process::exit)$')
+def m_panic_call(ex, a, m):
+    msg = ''
+    if a:
+        v = deref_all(a[0]) if isinstance(a[0], Ptr) else a[0]
+        if isinstance(v, StrV): msg = v.concrete() or ''
+        elif isinstance(v, Agg) and v.ty == 'FmtArguments':
+            try: msg = render_arguments(ex, v)
+            except Exception: msg = ''
+    raise Panic(f'{m.group(1).split("::")[-1]}: {msg}'[:200])
